@@ -108,8 +108,8 @@ def validate(case):
                 raise Invalid()
             names.add(acl["name"])
         elif sec["s"] == "group":
-            if sec["name"] in gnames or not sec["members"] or " " in sec["name"]:
-                raise Invalid()
+            if (sec["name"] in gnames) != bool(sec.get("cont")) or not sec["members"] or " " in sec["name"]:
+                raise Invalid()  # a repeated header continues its group (members are merged)
             gnames.add(sec["name"])
             for b, w in sec["members"]:
                 if b & w or (case["platform"] == "ios" and (w == R.ALL1 or not R.is_contiguous(w))) or len(R.nc_bits(w)) > 4:
@@ -133,7 +133,10 @@ def validate(case):
 
 def expected(case):
     """(acl list, group dict) by construction."""
-    groups = {s["name"]: [tuple(m) for m in s["members"]] for s in case["sections"] if s["s"] == "group"}
+    groups = {}
+    for s in case["sections"]:
+        if s["s"] == "group":
+            groups.setdefault(s["name"], []).extend(tuple(m) for m in s["members"])
     binds = {}
     for s in case["sections"]:
         if s["s"] == "intf":
@@ -280,7 +283,11 @@ def judge(case) -> Verdict:
         v.fail("aces:not-the-concatenation-of-acl-bodies", dict(detail, got=[o.line for o in items]))
     # addrgroups(): exactly the group sections, in order, with their members
     grs = cisco_acl.addrgroups(config, platform=platform)
-    want_g = [(s["name"], [tuple(m) for m in s["members"]]) for s in case["sections"] if s["s"] == "group"]
+    want_g = []
+    for s in case["sections"]:
+        if s["s"] == "group" and not s.get("cont"):
+            want_g.append((s["name"], [tuple(m) for c in case["sections"] if c["s"] == "group" and c["name"] == s["name"]
+                                       for m in c["members"]]))
     got_g = []
     for g in grs:
         try:
@@ -369,6 +376,14 @@ def config_st(draw, tier):
             cont = dict(base, items=base["items"][cut:])
             sections[i] = dict(sections[i], acl=dict(base, items=base["items"][:cut]))
             sections.insert(draw(st.integers(i + 1, len(sections))), {"s": "acl-cont", "acl": cont, "ind": draw(st.integers(1, 4))})
+    if draw(st.sampled_from(range(5))) == 3:
+        cands = [i for i, sec in enumerate(sections) if sec["s"] == "group" and len(sec["members"]) >= 2]
+        if cands:
+            i = draw(st.sampled_from(cands))
+            base = sections[i]
+            cut = draw(st.integers(1, len(base["members"]) - 1))
+            sections[i] = dict(base, members=base["members"][:cut])
+            sections.insert(draw(st.integers(i + 1, len(sections))), dict(base, members=base["members"][cut:], cont=True, desc=""))
     names = None
     if draw(st.integers(0, 2)) == 0:
         near = [n + "0" for n in acl_names] + ["x" + n for n in acl_names] + [n[:-1] for n in acl_names if len(n) > 1] + \
